@@ -61,6 +61,14 @@ def main(argv=None):
             if not hit:
                 print('REPLAY: instance no longer exists')
         return rc
+    except BrokenPipeError:
+        # stdout was closed by the reader (e.g. `| head`); the evidence file
+        # is already written, keep the verdict
+        try:
+            sys.stdout = open(os.devnull, 'w')
+        except Exception:
+            pass
+        return getattr(report, 'rc', 2) if 'report' in dir() else 2
     except AnalysisError as e:
         print('ANALYSIS-ERROR property=%s: %s' % (prop, e))
         return 2
